@@ -434,6 +434,17 @@ def stmtOf (c : Ctx) (script : Script) (d : TraceDb) (seed : Nat) : String :=
   | .error _ => "ERR"
   | .ok outs => "ROWS " ++ outsSer outs
 
+/-- the same for the REAL statement (object tree of the Go planner, re-rendered to the bytes the loop sent) -/
+def stmtOfReal (c : Ctx) (d : TraceDb) (seed : Nat) (ast : String) (text : Bytes) : String :=
+  let toks := ast.splitOn ","
+  match pSel (toks.length + 1) toks with
+  | some (sel, []) =>
+    if renderSel sel != text then "BADAST"
+    else
+      let dv := if c.rndMax = 0 then d else d.withPortionCols (hashOf seed) idText c.rndMax.toNat
+      "ROWS " ++ outsSer ((evalStmtJ orc aorc (dv.toDb c) sel).filterMap rowOut)
+  | _ => "BADAST"
+
 /-- the result of a search as a set of traces judged against the specification on the whole database (every index
     span has its span-table row in the harness databases, so no trace is lost in the join) -/
 def judgeResult (c : Ctx) (script : Script) (d : TraceDb) (outs : List TraceOut) : String :=
@@ -542,6 +553,11 @@ def handle : List String → Option String
     let (c, rest) ← ctx? args
     match rest with
     | [sc, db, sp, seed] => do some (stmtOf c (← parseScript sc) (← dbs? db sp) (← seed.toNat?))
+    | _ => none
+  | "c11stmtreal" :: args => do
+    let (c, rest) ← ctx? args
+    match rest with
+    | [db, sp, seed, ast, text] => do some (stmtOfReal c (← dbs? db sp) (← seed.toNat?) ast (← ofHex text))
     | _ => none
   | "c11loop" :: args => do
     let (c, rest) ← ctx? args
